@@ -25,6 +25,7 @@ func suiteSched(rn *runner, r *rng, tier string) {
 	defer func() { simdjson.VerifHook = nil }()
 	oldProcs := runtime.GOMAXPROCS(0)
 	defer runtime.GOMAXPROCS(oldProcs)
+	hangs := 0
 	for i := 0; i < n; i++ {
 		cr := r.fork()
 		// documents needing 1..60 index buffers (1408 indexes each), valid or failing early/late
@@ -212,11 +213,19 @@ func suiteSched(rn *runner, r *rng, tier string) {
 		tc.ops = []string{fmt.Sprintf("parse p %s 1 %s", nd, hx([]byte(text))), "tapehash p"}
 		st := newStore()
 		nextParse.reuse = reuse
-		tc.impl = []string{st.execTimed(tc.ops[0], 60*time.Second)}
+		tc.impl = []string{st.execTimed(tc.ops[0], 30*time.Second)}
 		simdjson.VerifHook = nil
 		tc.impl = append(tc.impl, st.exec(tc.ops[1]))
 		if tc.impl[0] == "hang" {
 			rn.disagree(disagreement{Kind: "spec", Ops: tc.ops, At: 0, Impl: "hang", Other: "<both stages terminate>", Note: fmt.Sprintf("%s mode=%d procs=%d", kind, mode, procs)})
+			// the two stages of that call are stuck for good (their goroutines are leaked, the object's channel is
+			// full): one replay is enough, and later cases would only wait for the same time-out
+			hangs++
+			if hangs >= 2 {
+				rn.rep.Notes = append(rn.rep.Notes, "sched: stopped after two calls that did not return within 30 s")
+				break
+			}
+			continue
 		}
 		if l := h.ChanLen(); l != 0 && tc.impl[0] != "hang" {
 			rn.disagree(disagreement{Kind: "spec", Ops: tc.ops, At: 0, Impl: fmt.Sprintf("%d index buffers left in the channel after return", l), Other: "0", Note: kind})
